@@ -270,7 +270,7 @@ VALIDATE_CFG = "INIT Init\nNEXT Next\nINVARIANT WriteOut\nCHECK_DEADLOCK FALSE\n
 TRACE_CFG = {}      # trace module -> extra cfg lines (constants of the specification it extends)
 
 
-def tlc_validate(ctx, name, module, files, timeout=3600, cfg=None):
+def tlc_validate(ctx, name, module, files, timeout=3600, cfg=None, depth=0, count=True):
     """M3: every shard is validated by its own TLC process against spec/trace/<module>.tla;
     returns the list of (shard file, bad entries)"""
     t = time.time()
@@ -295,7 +295,25 @@ def tlc_validate(ctx, name, module, files, timeout=3600, cfg=None):
         if out["events"] != nlines:
             raise Broken("%s: TLC saw %d events, trace has %d" % (name, out["events"], nlines))
         events += nlines
-        results.append((f, out["bad"] if isinstance(out["bad"], list) else []))
+        bad = out["bad"] if isinstance(out["bad"], list) else []
+        # the trace specs record details only for the first 100 unexplained events; the others are
+        # re-validated on their own (up to 4 more passes) so that every reported event has its details
+        bare = [b for b in bad if set(b.keys()) == {"event"}]
+        if bare and depth < 4:
+            lines = open(f).read().splitlines()
+            sub = os.path.join(d, "rest.ndjson")
+            with open(sub, "w") as fh:
+                for b in bare:
+                    fh.write(lines[b["event"] - 1] + "\n")
+            more = tlc_validate(ctx, "%s.more%d.%d" % (name, depth, len(results)), module, [sub], timeout, cfg, depth + 1, count=False)
+            detailed = {}
+            for _, entries in more:
+                for e in entries:
+                    detailed[bare[e["event"] - 1]["event"]] = dict(e, event=bare[e["event"] - 1]["event"])
+            bad = [b for b in bad if set(b.keys()) != {"event"}] + [detailed[b["event"]] for b in bare if b["event"] in detailed]
+        results.append((f, bad))
+    if not count:
+        return results
     ctx.cov["states"] += states
     ctx.cov["transitions"] += gen
     ctx.cov["traces_validated_against_impl"] += events
